@@ -117,6 +117,7 @@ class Registry:
     """real object -> small integer.  Code objects are held weakly (they must be able to die)."""
 
     def __init__(self):
+        self.expected_fail = set()   # code ids of pool functions whose conversion is meant to fail (no source)
         self._codes = {}       # id(code) -> (weakref, cid)
         self._next_code = 1
         self._envs = {}        # env key -> eid
@@ -244,6 +245,16 @@ def behaviour(fn, inputs=INPUTS, extra_args=()):
         except Exception as e:  # noqa: BLE001 - the exception class is the observation
             out.append(('exc', type(e).__name__))
     return out
+
+
+def forget_factories(g):
+    """The factories `make` / `make_dir` reference the code objects of the functions they create: unbind them
+    (rebinding, not deleting: the size of the namespace never changes, see notes/C10.md on getfutureimports)."""
+    g['make'] = None
+    g['make_dir'] = None
+
+
+NOSRC = 'def nosrc(x):\n    if x > 0:\n        return x + G\n    return G - x\n'
 
 
 def clone_with_defaults(fn, defaults):
